@@ -3,7 +3,7 @@
 (* driver only converts text to the [json] datatype and back.                       *)
 From LCM Require Import Base.Prelude Base.Arr Base.ArrOps Base.PyVal Base.Json Base.QKernel.
 From LCM Require Import Gen.GridHelpersQ Gen.NdimageKernel Gen.GridValidate Gen.DiscreteNoShocks Gen.Argmax.
-From LCM Require Import Spec.Interp Spec.GridRules Model.Ndimage Model.Grids Model.Functools Model.Dispatchers Model.Decode.
+From LCM Require Import Spec.Interp Spec.GridRules Model.Ndimage Model.Grids Model.Functools Model.Dispatchers Model.Decode Model.RandomChoice.
 Local Open Scope string_scope.
 
 Definition jpyval (j : json) : option pyval :=
@@ -131,6 +131,13 @@ Definition run_kernel (fn : string) (c : json) : option json :=
     else None
   else if String.eqb fn "solve_spec" then run_solve_spec c
   else if String.eqb fn "rows" then run_rows c
+  else if String.eqb fn "choice" then
+    do p <- jfield_of (jlist_of jq) "p" c ;; do u <- jfield_of jq "u" c ;;
+    Some (of_nat (choice p u))
+  else if String.eqb fn "draw_key" then
+    do n_ids <- jfield_of jnat "n_ids" c ;; do t <- jfield_of jnat "t" c ;;
+    do j <- jfield_of jnat "j" c ;; do i <- jfield_of jnat "i" c ;;
+    Some (of_list of_nat (draw_key [] n_ids t j i))
   else if String.eqb fn "lin_points" then
     do a <- jfield_of jq "start" c ;; do b <- jfield_of jq "stop" c ;; do n <- jfield_of jnat "n" c ;;
     Some (of_list of_q (lin_points a b n))
